@@ -14,8 +14,8 @@
 (* TLC explores the integrands of degree <= MaxD with coefficients in Coef, in expanded / factored /   *)
 (* power / scaled shapes, bounds in Bnd, derivatives, finite sums, as the state space, and every        *)
 (* transition is written as a vector {e, rule, ps, pe} for replay into the real code (-workers 1).      *)
-EXTENDS C19_Eval, Json, IOUtils
-CONSTANTS Coef, Pairs, SumPairs, Bnd, MaxD, MaxSteps, SubA, SubB
+EXTENDS C19_Rules
+CONSTANTS Coef, Pairs, SumPairs, Bnd, MaxD, MaxSteps, SubA, SubB, LimC
 \* constant sets for the cfg files (a cfg cannot contain negative literals)
 C2 == {-1, 2}
 C3 == {-1, 1, 2}
@@ -34,141 +34,13 @@ B2 == {-1, 1}
 A1 == {-1}
 A2 == {-1, 2}
 A3 == {-2, -1, 3}
+L1 == {1}
+L2 == {1, 2}
+L3 == {1, 2, 3}
 S1 == {1}
 S2 == {0, 1}
 S3 == {-1, 0, 2}
 
-X == <<"var", "x">>
-K(n) == <<"const", n, 1>>
-Q(q) == IF q = ROvf THEN <<"bigconst", "", "">> ELSE <<"const", q[1], q[2]>>
-Add(a, b) == <<"op", "+", a, b>>
-Sub(a, b) == <<"op", "-", a, b>>
-Mul(a, b) == <<"op", "*", a, b>>
-Div(a, b) == <<"op", "/", a, b>>
-Pow(a, n) == <<"op", "^", a, K(n)>>
-Neg(a) == <<"neg", a>>
-IntE(x, lo, hi, b) == <<"int", x, lo, hi, b>>
-EvalAt(x, lo, hi, b) == <<"evalat", x, lo, hi, b>>
-KV == <<"var", "k">>
-SignFactor == <<"op", "^", K(-1), Mul(K(2), KV)>>             \* (-1) ^ (2 * k), the factor SummationSimplify removes
-
-(* ---------------- coefficient sequences over Rat, lowest degree first, no trailing zero ---------------- *)
-RECURSIVE Trim(_)
-Trim(p) == IF Len(p) > 0 /\ p[Len(p)] = Z THEN Trim(SubSeq(p, 1, Len(p) - 1)) ELSE p
-At(p, i) == IF i >= 1 /\ i <= Len(p) THEN p[i] ELSE Z
-PAdd(p, q) == Trim([i \in 1..MaxN(Len(p), Len(q)) |-> QAdd(At(p, i), At(q, i))] \o <<>>)
-PScale(c, p) == Trim([i \in 1..Len(p) |-> QMul(c, p[i])] \o <<>>)
-PNeg(p) == PScale(<<-1, 1>>, p)
-PSub(p, q) == PAdd(p, PNeg(q))
-RECURSIVE ConvSum(_, _, _, _)
-ConvSum(p, q, k, i) == IF i > Len(p) THEN Z ELSE QAdd(QMul(p[i], At(q, k - i + 1)), ConvSum(p, q, k, i + 1))
-PMul(p, q) == IF Len(p) = 0 \/ Len(q) = 0 THEN <<>> ELSE Trim([k \in 1..(Len(p) + Len(q) - 1) |-> ConvSum(p, q, k, 1)] \o <<>>)
-RECURSIVE PPow(_, _)
-PPow(p, n) == IF n = 0 THEN <<One>> ELSE PMul(p, PPow(p, n - 1))
-PDeriv(p) == IF Len(p) <= 1 THEN <<>> ELSE Trim([i \in 1..(Len(p) - 1) |-> QMul(RInt(i), p[i + 1])] \o <<>>)
-PAnti(p) == IF Len(p) = 0 THEN <<>> ELSE Trim([i \in 1..(Len(p) + 1) |-> IF i = 1 THEN Z ELSE QDiv(p[i - 1], RInt(i - 1))] \o <<>>)
-\* p(a * u + b)
-RECURSIVE PCompFrom(_, _, _)
-PCompFrom(p, l, i) == IF i > Len(p) THEN <<>> ELSE PAdd(<<p[i]>>, PMul(l, PCompFrom(p, l, i + 1)))
-PComp(p, a, b) == Trim(PCompFrom(p, Trim(<<b, a>>), 1))
-PEval(p, t) == PolyAt(p, t)
-
-\* expression of the univariate fragment -> coefficients ; <<"err">> flags a non-polynomial
-PErr == << <<7, 0>> >>
-RECURSIVE ToPoly(_, _)
-ToPoly(e, x) ==
-  CASE e[1] = "var" -> IF e[2] = x THEN <<Z, One>> ELSE PErr
-    [] e[1] = "const" -> Trim(<<RNorm(e[2], e[3])>>)
-    [] e[1] = "neg" -> LET a == ToPoly(e[2], x) IN IF a = PErr THEN PErr ELSE PNeg(a)
-    [] e[1] = "op" ->
-         LET a == ToPoly(e[3], x) IN
-         IF a = PErr THEN PErr
-         ELSE IF e[2] = "^" THEN (IF e[4][1] = "const" /\ e[4][3] = 1 /\ e[4][2] >= 0 THEN PPow(a, e[4][2]) ELSE PErr)
-         ELSE LET b == ToPoly(e[4], x) IN
-              IF b = PErr THEN PErr
-              ELSE CASE e[2] = "+" -> PAdd(a, b) [] e[2] = "-" -> PSub(a, b) [] e[2] = "*" -> PMul(a, b)
-                     [] e[2] = "/" -> IF Len(b) = 1 THEN PScale(QDiv(One, b[1]), a) ELSE PErr
-                     [] OTHER -> PErr
-    [] OTHER -> PErr
-
-\* canonical expression of a coefficient sequence: c_n * x^n + ... + c_1 * x + c_0 (zero terms omitted)
-Mono(c, k, x) == IF k = 0 THEN Q(c)
-                 ELSE LET xp == IF k = 1 THEN <<"var", x>> ELSE Pow(<<"var", x>>, k) IN IF c = One THEN xp ELSE Mul(Q(c), xp)
-RECURSIVE FromFrom(_, _, _)
-FromFrom(p, i, x) ==          \* terms of index <= i, highest first
-  IF i = 0 THEN <<"none">>
-  ELSE LET rest == FromFrom(p, i - 1, x) IN
-       IF p[i] = Z THEN rest ELSE IF rest = <<"none">> THEN Mono(p[i], i - 1, x) ELSE Add(Mono(p[i], i - 1, x), rest)
-FromPoly(p, x) == IF Len(p) = 0 THEN K(0) ELSE FromFrom(p, Len(p), x)
-
-(* ---------------------------------- reference rules ---------------------------------- *)
-IsInt(e) == e[1] = "int"
-IsConstE(e) == e[1] = "const"
-\* INT (a + b) = INT a + INT b ; INT (c * a) = c * INT a ; INT (-a) = - INT a
-RECURSIVE Lin(_)
-Lin(e) ==
-  IF ~IsInt(e) THEN e ELSE
-  LET x == e[2]  b == e[5]  I(t) == <<"int", x, e[3], e[4], t>> IN
-  CASE b[1] = "op" /\ b[2] = "+" -> Add(Lin(I(b[3])), Lin(I(b[4])))
-    [] b[1] = "op" /\ b[2] = "-" -> Sub(Lin(I(b[3])), Lin(I(b[4])))
-    [] b[1] = "neg" -> Neg(Lin(I(b[2])))
-    [] b[1] = "op" /\ b[2] = "*" /\ IsConstE(b[3]) -> Mul(b[3], Lin(I(b[4])))
-    [] OTHER -> e
-\* apply f to every definite integral inside arithmetic
-RECURSIVE MapInt(_, _)
-RefOne(rule, pe, e) ==             \* the reference rule on ONE definite integral / derivative / sum / evalat
-  CASE rule = "Linearity" -> Lin(e)
-    [] rule = "Antiderivative" ->          \* power rule on polynomials: INT x:[a,b]. p = [P]_x=a,b
-         IF IsInt(e) THEN EvalAt(e[2], e[3], e[4], FromPoly(PAnti(ToPoly(e[5], e[2])), e[2])) ELSE e
-    [] rule = "EvalAt" ->                  \* [F]_x=a,b = F(b) - F(a)
-         IF e[1] = "evalat"
-         THEN LET p == ToPoly(e[5], e[2])  lo == Val(e[3], <<>>)  hi == Val(e[4], <<>>) IN
-              IF p = PErr \/ lo.st # 0 \/ hi.st # 0 THEN e ELSE Q(QSub(PEval(p, hi.v), PEval(p, lo.v)))
-         ELSE e
-    [] rule = "ExpandPolynomial" -> IF IsInt(e) THEN IntE(e[2], e[3], e[4], FromPoly(ToPoly(e[5], e[2]), e[2])) ELSE e
-    [] rule = "Simplify" ->
-         IF IsInt(e) THEN IntE(e[2], e[3], e[4], FromPoly(ToPoly(e[5], e[2]), e[2]))
-         ELSE IF e[1] = "deriv" \/ e[1] = "sum" \/ e[1] = "evalat" THEN e ELSE FromPoly(ToPoly(e, "x"), "x")
-    [] rule = "Substitution" ->            \* u = a * x + b :  INT x:[l,h]. f = INT u:[a l + b, a h + b]. f((u - b) / a) / a
-         IF IsInt(e)
-         THEN LET a == Val(pe[1], <<>>).v  b == Val(pe[2], <<>>).v  ia == QDiv(One, a)
-                  lo == Val(e[3], <<>>).v  hi == Val(e[4], <<>>).v
-                  g == PScale(ia, PComp(ToPoly(e[5], e[2]), ia, QNeg(QMul(b, ia)))) IN
-              IF Len(g) < 0 THEN e ELSE IntE("u", Q(QAdd(QMul(a, lo), b)), Q(QAdd(QMul(a, hi), b)), FromPoly(g, "u"))
-         ELSE e
-    [] rule = "IntegrationByParts" ->      \* u dv = integrand :  INT u dv = [u v] - INT v du
-         IF IsInt(e)
-         THEN LET u == ToPoly(pe[1], e[2])  v == ToPoly(pe[2], e[2]) IN
-              IF u = PErr \/ v = PErr THEN e ELSE
-              Sub(EvalAt(e[2], e[3], e[4], FromPoly(PMul(u, v), e[2])), IntE(e[2], e[3], e[4], FromPoly(PMul(v, PDeriv(u)), e[2])))
-         ELSE e
-    [] rule = "SplitRegion" -> IF IsInt(e) THEN Add(IntE(e[2], e[3], pe[1], e[5]), IntE(e[2], pe[1], e[4], e[5])) ELSE e
-    [] rule = "DerivativeSimplify" -> IF e[1] = "deriv" THEN FromPoly(PDeriv(ToPoly(e[3], e[2])), e[2]) ELSE e
-    [] rule = "SummationSimplify" ->       \* (-1) ^ (2 * k) = 1 for integer k
-         IF e[1] = "sum" /\ e[5][1] = "op" /\ e[5][2] = "*" /\ e[5][3] = SignFactor THEN <<"sum", e[2], e[3], e[4], Mul(K(1), e[5][4])>> ELSE e
-    [] rule = "SumUnfold" ->               \* a finite sum is the sum of its terms
-         IF e[1] = "sum" /\ ToPoly(e[5], e[2]) # PErr THEN LET lo == Val(e[3], <<>>).v[1]  hi == Val(e[4], <<>>).v[1]  p == ToPoly(e[5], e[2]) IN
-                               IF Len(p) < 0 THEN e ELSE Q(HornerP([i \in 1..(hi - lo + 1) |-> PEval(p, RInt(lo + i - 1))] \o <<>>, One, 1))
-         ELSE e
-    [] OTHER -> e
-MapInt(rule_pe, e) ==
-  CASE e[1] \in {"int", "deriv", "sum", "evalat"} -> RefOne(rule_pe[1], rule_pe[2], e)
-    [] e[1] = "op" -> <<"op", e[2], MapInt(rule_pe, e[3]), MapInt(rule_pe, e[4])>>
-    [] e[1] = "neg" -> <<"neg", MapInt(rule_pe, e[2])>>
-    [] OTHER -> e
-\* rules with parameters act on the FIRST definite integral of the expression only (as rules.py does: separate_integral()[0])
-RECURSIVE MapFirst(_, _)
-MapFirst(rule_pe, e) ==          \* [done, e]   (a record: see the note in C19_Eval)
-  CASE e[1] = "int" -> [done |-> TRUE, e |-> RefOne(rule_pe[1], rule_pe[2], e)]
-    [] e[1] = "op" -> LET a == MapFirst(rule_pe, e[3]) IN
-                      IF a.done THEN [done |-> TRUE, e |-> <<"op", e[2], a.e, e[4]>>]
-                      ELSE LET b == MapFirst(rule_pe, e[4]) IN [done |-> b.done, e |-> <<"op", e[2], e[3], b.e>>]
-    [] e[1] = "neg" -> LET a == MapFirst(rule_pe, e[2]) IN [done |-> a.done, e |-> <<"neg", a.e>>]
-    [] OTHER -> [done |-> FALSE, e |-> e]
-Parametric == {"Substitution", "IntegrationByParts", "SplitRegion"}
-Ref(rule, pe, e) == IF rule \in Parametric THEN MapFirst(<<rule, pe>>, e).e
-                    ELSE IF rule = "Simplify" /\ e[1] \notin {"int", "op", "neg"} THEN RefOne(rule, pe, e)
-                    ELSE MapInt(<<rule, pe>>, e)
 
 (* ---------------------------------- the universe ---------------------------------- *)
 Polys == UNION {[1..(d + 1) -> Coef] : d \in 0..MaxD}           \* coefficient sequences (integers), constant first
@@ -183,7 +55,18 @@ Shapes(c) ==
 Bodies == UNION {Shapes(c) : c \in Polys}
 BndPairs == Pairs
 SumBodies == {FromPoly(PolyQ(c), "k") : c \in Polys} \cup {Mul(SignFactor, FromPoly(PolyQ(c), "k")) : c \in Polys}
+\* limits at +oo of rational functions: sums / differences of decaying terms a / x^i (also under a reciprocal, where the side from
+\* which 0 is approached decides the sign), quotients of polynomials
+Decay(a, i) == Div(K(a), IF i = 1 THEN X ELSE Pow(X, i))
+DecaySums == UNION {{Sub(Decay(a, ij[1]), Decay(b, ij[2])), Add(Decay(a, ij[1]), Decay(b, ij[2])), Add(Sub(Decay(a, ij[1]), Decay(b, ij[2])), K(a))}
+                    : a \in LimC, b \in LimC, ij \in {p \in (1..3) \X (1..3) : p[1] # p[2]}}
+LimBodies == DecaySums \cup {Div(K(1), d) : d \in DecaySums} \cup {Neg(Div(K(2), d)) : d \in DecaySums}
+             \cup {Pow(d, 2) : d \in DecaySums} \cup {<<"op", "^", d, K(-1)>> : d \in DecaySums}
+             \cup UNION {{Div(Expanded(c), Add(X, K(1))), Div(Add(X, K(-1)), Expanded(c)), Div(Expanded(c), Add(Pow(X, 2), K(1)))}
+                          : c \in {q \in Polys : Len(q) >= 2 /\ q[Len(q)] # 0}}
+LimUniverse == {<<"lim", "x", <<"inf", 1>>, b, "">> : b \in LimBodies}
 Universe ==
+  LimUniverse \cup
   {IntE("x", K(bb[1]), K(bb[2]), b) : bb \in BndPairs, b \in Bodies}
   \cup {<<"deriv", "x", b>> : b \in Bodies}
   \cup {<<"sum", "k", K(bb[1]), K(bb[2]), b>> : bb \in SumPairs, b \in SumBodies}
@@ -213,6 +96,7 @@ Offers(e, depth) ==
                \cup {<<"IntegrationByParts", <<>>, <<uv[1], uv[2]>>>> : uv \in PartsOf(i)}
           ELSE {})
     \cup (IF e[1] = "deriv" THEN {NoP("DerivativeSimplify")} ELSE {})
+    \cup (IF e[1] = "lim" THEN {NoP("ReduceLimit"), NoP("LimitSimplify")} ELSE {})
     \cup (IF e[1] = "sum" THEN {NoP("SumUnfold"), NoP("SummationSimplify")} ELSE {})
   ELSE    \* later steps finish the calculation
     (IF i # <<"none">> THEN {NoP("Antiderivative")} ELSE {})
@@ -221,13 +105,13 @@ Offers(e, depth) ==
 
 \* the vector handed to the real code: the substitution parameter is the expression a * x + b
 \* name of the rule of integral/rules.py that plays the role of the reference rule
-CodeRule(r) == CASE r = "Antiderivative" -> "DefiniteIntegralIdentity" [] r \in {"EvalAt", "SumUnfold"} -> "FullSimplify" [] OTHER -> r
+CodeRule(r) == CASE r = "Antiderivative" -> "DefiniteIntegralIdentity" [] r \in {"EvalAt", "SumUnfold", "LimitSimplify"} -> "FullSimplify" [] OTHER -> r
 VecOf(e, o, n) ==
   [e |-> e, rule |-> CodeRule(o[1]), ref |-> o[1], ps |-> o[2], step |-> n,
    pe |-> IF o[1] = "Substitution" THEN << Add(Mul(o[3][1], X), o[3][2]) >> ELSE o[3]]
 
 \* values of an expression at the grid points of the start expression's variables
-ValTab(e, vs) == [env \in [vs -> Grid(1)] |-> Val(e, env)] @@ <<>>
+ValTab(e, vs) == [env \in [vs -> Grid(1)] |-> XVal(e, env)] @@ <<>>
 \* vectors are collected in TLC registers: 7 = the current chunk, 8 = the sequence of full chunks (a single growing
 \* sequence would be walked completely by every TLCSet)
 ChunkLen == 250
@@ -248,7 +132,7 @@ Spec == Init /\ [][Next]_vars
 
 (* ---------------------------------- invariants ---------------------------------- *)
 \* the property: every step has the value of the start expression (at every grid point; all defined and examinable)
-SameValueInv == \A env \in DOMAIN ref : ref[env].st = 0 /\ (Len(steps) > 0 => Val(Last, env) = ref[env])
+SameValueInv == \A env \in DOMAIN ref : ref[env].st = 0 /\ (Len(steps) > 0 => XVal(Last, env) = ref[env])
 \* the general comparison operator used by the trace specification gives the same verdict
 SameValueOp == Len(steps) > 0 => LET r == SameValue(start, Last, <<>>) IN ~r.fails /\ r.cmp
 \* symbolic evaluation of a closed definite integral / of a derivative at the grid, against the pointwise evaluator
